@@ -248,7 +248,7 @@ def step (st : St) : List String → St × String
       if lv > 60 then (st, "err other") else
       let one (i : Nat) : String :=
         let d := dimsLevel p i
-        s!"{showRat (qLevel s i)}|{showPair (numAiry p i)}|{d.1},{d.2}|{showPair (deltaLevel p i)}|{showPair (zeroLevel p i)}|{propKind i}"
+        s!"{showRat (qLevel s i)}|{showPair (numAiry p i)}|{d.1},{d.2}|{showPair (deltaLevel p i)}|{showPair (zeroLevel p i)}|{propKind i}|{originIndex d.1},{originIndex d.2}"
       let lvls := ";".intercalate ((List.range lv).map one)
       let pads := ";".intercalate ((padLevels p lv).map showPad)
       (st, s!"ok levels={lv} boundary={showBool (levelsBoundary q s)} accepted={showBool (accepted p lv)} lv={lvls} pad={if pads.isEmpty then "-" else pads}")
